@@ -69,7 +69,7 @@ impl Family for C09Family {
             rule: "seeded single-actor histories over authenticator configurations {no hmac-secret, UV-only, with non-UV secret} x {evaluation at creation on/off}, verified and unverified ceremonies (user-validation outcome x userVerification), 1-3 credentials with and without stored secrets; PRF inputs: one or two values of length 0-100, eval and evalByCredential, prf / prfAlreadyHashed / both, WebAuthn and CTAP level; one run in four carries exactly one malformed request of a stated class (per-credential inputs at registration, without allow list, empty / undecodable / unlisted key, pre-hashed input not 32 bytes); odd indexes add store errors, denials and cancellations. Expected outputs are recomputed with hmac/sha2 from the secrets read back from the store. Non-trivial = a PRF output was checked or a malformed request was judged; distinct = distinct (configuration, request shape, verification, outcome) signature.",
             assumptions: &["hmac and sha2 crates are trusted", "per-credential keys that decode to the same id are not generated (the library's winner would depend on HashMap order)"],
             real: &["passkey-client extensions/prf.rs (input validation, salt derivation)", "passkey-authenticator extensions/hmac_secret.rs", "Authenticator::{make_credential,get_assertion}", "Client::{register,authenticate}"],
-            stubs: &["executor", "SimStore seam + reference store", "SimUser", "seeded RNG behind the hook"],
+            stubs: &["executor", "SimStore seam + reference store (3 runs in 4; the shipped MemoryStore and Option<Passkey> in the others)", "SimUser", "seeded RNG behind the hook"],
             crash_isolated: false,
             fresh_thread: true,
         }
@@ -88,7 +88,12 @@ impl Family for C09Family {
         let wrap = *r.pick(&WRAPS);
         let mut store = gen_store_cfg(&mut r);
         store.capability = Capability::Full;
-        let mut c = ceremony(Backend::Ref, wrap, store);
+        let backend = match r.below(8) {
+            0 => Backend::Memory,
+            1 => Backend::Slot,
+            _ => Backend::Ref,
+        };
+        let mut c = ceremony(backend, wrap, store);
         c.rng_seed = r.next_u64();
         let rp: u8 = *r.pick(&[0, 1, 2]);
         let n_pre = r.range(0, 3) as usize;
